@@ -93,6 +93,8 @@ fn install_panic_hook() {
 // ---------------------------------------------------------------------------------------
 
 static UNIQ: AtomicU64 = AtomicU64::new(0);
+/// above this many TIME_WAIT sockets (of ~28000 ephemeral ports) new scenarios wait
+const TIME_WAIT_HIGH: u64 = 20000;
 
 fn exec_once(env: &Env, case: &Case, deadline_s: u64, short_udp: bool) -> Outcome {
     let uniq = UNIQ.fetch_add(1, Ordering::SeqCst);
@@ -130,7 +132,17 @@ fn exec_once(env: &Env, case: &Case, deadline_s: u64, short_udp: bool) -> Outcom
 /// Run with re-runs while the subject loses the race for a leased port.
 fn exec(env: &Env, case: &Case, deadline_s: u64, short_udp: bool, tally: &Tally) -> Outcome {
     let mut last = None;
-    for _ in 0..6 {
+    for attempt in 0..8u64 {
+        // keep clear of ephemeral-port exhaustion (every closed connection lingers 60 s in TIME_WAIT)
+        let mut waited = 0u64;
+        while waited < 90_000 && super::c01_env::time_wait_count().is_some_and(|tw| tw > TIME_WAIT_HIGH) {
+            std::thread::sleep(Duration::from_millis(250));
+            waited += 250;
+        }
+        tally.throttle_ms.fetch_add(waited, Ordering::Relaxed);
+        if attempt > 0 {
+            std::thread::sleep(Duration::from_millis(20 * attempt));
+        }
         tally.executions.fetch_add(1, Ordering::Relaxed);
         let o = exec_once(env, case, deadline_s, short_udp);
         if !o.port_race {
@@ -140,7 +152,7 @@ fn exec(env: &Env, case: &Case, deadline_s: u64, short_udp: bool, tally: &Tally)
         last = Some(o);
     }
     let mut o = last.expect("at least one run");
-    o.failures = vec![Failure { key: "machinery".into(), desc: format!("{}: the subject lost the race for its listening port six times in a row", case.label()), deadline: false }];
+    o.failures = vec![Failure { key: "machinery".into(), desc: format!("{}: the subject lost the race for its listening port eight times in a row", case.label()), deadline: false }];
     o
 }
 
@@ -160,6 +172,7 @@ struct Tally {
     isolation_runs: AtomicU64,
     deadline_not_reproduced: AtomicU64,
     counted_without_rerun: AtomicU64,
+    throttle_ms: AtomicU64,
 }
 
 #[derive(Default)]
@@ -171,6 +184,8 @@ struct Sums {
     refuse_cases_clean: u64,
     max_wall_ms: u128,
     flaky: Vec<Value>,
+    unconfirmed: u64,
+    unconfirmed_list: Vec<Value>,
 }
 
 fn add_tcp(a: &mut TcpStats, b: &TcpStats) {
@@ -180,6 +195,8 @@ fn add_tcp(a: &mut TcpStats, b: &TcpStats) {
     a.end_eof += b.end_eof;
     a.end_reset += b.end_reset;
     a.refuse_granted_then_closed += b.refuse_granted_then_closed;
+    a.refuse_end_eof += b.refuse_end_eof;
+    a.refuse_end_reset += b.refuse_end_reset;
     a.refuse_refused_reply += b.refuse_refused_reply;
     a.refuse_closed_before_reply += b.refuse_closed_before_reply;
 }
@@ -367,27 +384,37 @@ pub fn run(args: &Args) -> Report {
     let degraded = AtomicBool::new(false);
     let rep_m = Mutex::new(rep);
     let sums = Mutex::new(Sums::default());
-    const SHORT_DEADLINE_S: u64 = 4;
+    const SHORT_DEADLINE_S: u64 = 2;
+    let started = std::time::Instant::now();
+    let budget = Duration::from_secs(if args.thorough() { 480 } else { 100 });
+    let done_cases = AtomicUsize::new(0);
+    let iso_cap: u64 = if args.thorough() { 8 } else { 4 };
 
     std::thread::scope(|s| {
         for w in 0..b.parallel {
-            let (cases, env, tally, next, iso, confirmed, degraded, rep_m, sums, b) = (&cases, &env, &tally, &next, &iso, &confirmed, &degraded, &rep_m, &sums, &b);
+            let (cases, env, tally, next, iso, confirmed, degraded, rep_m, sums, b, done_cases) = (&cases, &env, &tally, &next, &iso, &confirmed, &degraded, &rep_m, &sums, &b, &done_cases);
             std::thread::Builder::new()
                 .name(format!("c01-pool{w}"))
                 .spawn_scoped(s, move || {
                     loop {
+                        let deg = degraded.load(Ordering::SeqCst);
+                        if deg && started.elapsed() > budget {
+                            // a tree that fails this broadly is reported, not explored to the end
+                            return;
+                        }
                         let k = next.fetch_add(1, Ordering::SeqCst);
                         if k >= cases.len() {
                             return;
                         }
+                        done_cases.fetch_add(1, Ordering::SeqCst);
                         let case = &cases[k];
-                        let deg = degraded.load(Ordering::SeqCst);
                         let first = {
                             let _g = iso.read().unwrap_or_else(std::sync::PoisonError::into_inner);
                             exec(env, case, if deg { SHORT_DEADLINE_S } else { b.deadline_s }, deg, tally)
                         };
                         let mut verdict: Vec<(Failure, &'static str)> = Vec::new();
                         let mut final_out = None;
+                        let mut skip_clean = false;
                         let dl_keys: Vec<String> = first.failures.iter().filter(|f| f.deadline).map(|f| coarse(&f.key)).collect();
                         if dl_keys.is_empty() {
                             for f in &first.failures {
@@ -395,45 +422,64 @@ pub fn run(args: &Args) -> Report {
                             }
                             final_out = Some(first);
                         } else {
-                            let all_known = {
+                            let known = || {
                                 let c = confirmed.lock().unwrap_or_else(std::sync::PoisonError::into_inner);
-                                dl_keys.iter().all(|k| c.get(k).copied().unwrap_or(0) >= 2)
+                                dl_keys.iter().all(|k| c.get(k).copied().unwrap_or(0) >= 1)
                             };
-                            if all_known {
+                            let count_directly = |verdict: &mut Vec<(Failure, &'static str)>| {
                                 tally.counted_without_rerun.fetch_add(1, Ordering::Relaxed);
                                 for f in &first.failures {
-                                    verdict.push((f.clone(), " (not re-run alone: the same failure was confirmed alone at least twice before)"));
+                                    verdict.push((f.clone(), " (not re-run alone: the same failure was confirmed alone before)"));
                                 }
+                            };
+                            if known() {
+                                count_directly(&mut verdict);
                             } else {
                                 // alone: wait for the other workers to finish their current scenario
-                                let second = {
-                                    let _g = iso.write().unwrap_or_else(std::sync::PoisonError::into_inner);
-                                    tally.isolation_runs.fetch_add(1, Ordering::Relaxed);
-                                    exec(env, case, b.deadline_s, false, tally)
-                                };
-                                // failures of the first pass that are not deadline hits stand on their own
-                                for f in first.failures.iter().filter(|f| !f.deadline) {
-                                    verdict.push((f.clone(), " (first pass)"));
-                                }
-                                if second.failures.is_empty() {
-                                    tally.deadline_not_reproduced.fetch_add(1, Ordering::Relaxed);
-                                    let mut g = sums.lock().unwrap_or_else(std::sync::PoisonError::into_inner);
-                                    if g.flaky.len() < 20 {
-                                        g.flaky.push(json!({"case": case.to_json(), "first_pass_keys": dl_keys, "first_pass_wall_ms": first.wall.as_millis()}));
+                                let g = iso.write().unwrap_or_else(std::sync::PoisonError::into_inner);
+                                if known() {
+                                    drop(g);
+                                    count_directly(&mut verdict);
+                                } else if tally.isolation_runs.load(Ordering::SeqCst) >= iso_cap {
+                                    drop(g);
+                                    // no verdict on the deadline part of this case (reported as such)
+                                    for f in first.failures.iter().filter(|f| !f.deadline) {
+                                        verdict.push((f.clone(), " (first pass)"));
                                     }
+                                    let mut g = sums.lock().unwrap_or_else(std::sync::PoisonError::into_inner);
+                                    g.unconfirmed += 1;
+                                    if g.unconfirmed_list.len() < 20 {
+                                        g.unconfirmed_list.push(json!({"case": case.to_json(), "first_pass_keys": dl_keys}));
+                                    }
+                                    skip_clean = true;
                                 } else {
-                                    let mut c = confirmed.lock().unwrap_or_else(std::sync::PoisonError::into_inner);
-                                    for f in &second.failures {
-                                        verdict.push((f.clone(), " (confirmed: failed again when run alone)"));
-                                        if f.deadline {
-                                            *c.entry(coarse(&f.key)).or_insert(0) += 1;
+                                    tally.isolation_runs.fetch_add(1, Ordering::SeqCst);
+                                    let second = exec(env, case, b.deadline_s, false, tally);
+                                    drop(g);
+                                    // failures of the first pass that are not deadline hits stand on their own
+                                    for f in first.failures.iter().filter(|f| !f.deadline) {
+                                        verdict.push((f.clone(), " (first pass)"));
+                                    }
+                                    if second.failures.is_empty() {
+                                        tally.deadline_not_reproduced.fetch_add(1, Ordering::Relaxed);
+                                        let mut g = sums.lock().unwrap_or_else(std::sync::PoisonError::into_inner);
+                                        if g.flaky.len() < 20 {
+                                            g.flaky.push(json!({"case": case.to_json(), "first_pass_keys": dl_keys, "first_pass_wall_ms": first.wall.as_millis()}));
+                                        }
+                                    } else {
+                                        let mut c = confirmed.lock().unwrap_or_else(std::sync::PoisonError::into_inner);
+                                        for f in &second.failures {
+                                            verdict.push((f.clone(), " (confirmed: failed again when run alone)"));
+                                            if f.deadline {
+                                                *c.entry(coarse(&f.key)).or_insert(0) += 1;
+                                            }
+                                        }
+                                        if c.values().sum::<u64>() >= 2 {
+                                            degraded.store(true, Ordering::SeqCst);
                                         }
                                     }
-                                    if c.values().sum::<u64>() >= 2 {
-                                        degraded.store(true, Ordering::SeqCst);
-                                    }
+                                    final_out = Some(second);
                                 }
-                                final_out = Some(second);
                             }
                         }
                         {
@@ -446,7 +492,7 @@ pub fn run(args: &Args) -> Report {
                                     add_udp(&mut g.udp, u);
                                 }
                                 g.max_wall_ms = g.max_wall_ms.max(o.wall.as_millis());
-                                if verdict.is_empty() {
+                                if verdict.is_empty() && !skip_clean {
                                     match case {
                                         Case::Tcp(t) if t.order == Order::Refuse => g.refuse_cases_clean += 1,
                                         Case::Tcp(_) => g.tcp_cases_clean += 1,
@@ -476,8 +522,12 @@ pub fn run(args: &Args) -> Report {
     let mut rep = rep_m.into_inner().unwrap_or_else(std::sync::PoisonError::into_inner);
     let sums = sums.into_inner().unwrap_or_else(std::sync::PoisonError::into_inner);
     rep.evaluations = tally.executions.load(Ordering::Relaxed);
-    rep.distinct_nontrivial = n_distinct as u64;
-    rep.exhaustive = true;
+    rep.distinct_nontrivial = done_cases.load(Ordering::SeqCst) as u64;
+    let n_done = done_cases.load(Ordering::SeqCst);
+    rep.exhaustive = n_done == n_distinct;
+    if n_done < n_distinct {
+        rep.caps_hit.push(format!("wall budget of {} s reached after deadline failures were confirmed: {} of {} matrix points were not run", budget.as_secs(), n_distinct - n_done, n_distinct));
+    }
     rep.rule = "complete product: TCP = entry point (7) x connections x chunking (3) x [close order (4) x client->target length x target->client length + target-refuses x client->target length]; UDP = entry (UDP remote, SOCKS5 UDP with IPv4 header, with domain header) x topology (1 client, 3 clients, 1 socket to 2 entry points) x payload length, 3 request/reply exchanges per leg; one execution per point (more only after a lost port race or a deadline hit); a case is distinct when its parameter tuple is distinct".into();
     rep.bounds.insert("tcp_entry_points".into(), json!(Entry::ALL.iter().map(|e| e.name()).collect::<Vec<_>>()));
     rep.bounds.insert("tcp_payload_lengths".into(), json!(b.tcp_lens));
@@ -493,10 +543,14 @@ pub fn run(args: &Args) -> Report {
     rep.bounds.insert("deadline_s".into(), json!(b.deadline_s));
     rep.bounds.insert("parallel_scenarios".into(), json!(b.parallel));
     rep.extra.insert("executions".into(), json!(tally.executions.load(Ordering::Relaxed)));
+    rep.extra.insert("time_wait_throttle_ms_total".into(), json!(tally.throttle_ms.load(Ordering::Relaxed)));
+    rep.extra.insert("subject_listener_port_pool".into(), json!(super::c01_env::port_pool_range()));
     rep.extra.insert("port_race_reruns".into(), json!(tally.port_races.load(Ordering::Relaxed)));
     rep.extra.insert("isolation_reruns".into(), json!(tally.isolation_runs.load(Ordering::Relaxed)));
     rep.extra.insert("deadline_hits_not_reproduced_alone".into(), json!(tally.deadline_not_reproduced.load(Ordering::Relaxed)));
     rep.extra.insert("deadline_hits_not_reproduced_cases".into(), json!(sums.flaky));
+    rep.extra.insert("deadline_failures_without_verdict".into(), json!(sums.unconfirmed));
+    rep.extra.insert("deadline_failures_without_verdict_cases".into(), json!(sums.unconfirmed_list));
     rep.extra.insert("deadline_failures_counted_without_rerun".into(), json!(tally.counted_without_rerun.load(Ordering::Relaxed)));
     rep.extra.insert("tcp_cases_clean".into(), json!(sums.tcp_cases_clean));
     rep.extra.insert("tcp_refuse_cases_clean".into(), json!(sums.refuse_cases_clean));
@@ -507,6 +561,8 @@ pub fn run(args: &Args) -> Report {
     rep.extra.insert("tcp_final_end_eof".into(), json!(sums.tcp.end_eof));
     rep.extra.insert("tcp_final_end_reset".into(), json!(sums.tcp.end_reset));
     rep.extra.insert("refuse_granted_then_closed".into(), json!(sums.tcp.refuse_granted_then_closed));
+    rep.extra.insert("refuse_local_end_eof".into(), json!(sums.tcp.refuse_end_eof));
+    rep.extra.insert("refuse_local_end_reset".into(), json!(sums.tcp.refuse_end_reset));
     rep.extra.insert("refuse_refusal_reply".into(), json!(sums.tcp.refuse_refused_reply));
     rep.extra.insert("refuse_closed_before_reply".into(), json!(sums.tcp.refuse_closed_before_reply));
     rep.extra.insert("udp_requests_at_target".into(), json!(sums.udp.requests_at_target));
@@ -538,6 +594,12 @@ pub fn run(args: &Args) -> Report {
     rep.assumptions.push("loopback only (127.0.0.1 and a Unix socket); plain ws:// between client and server; keep-alive off; fresh client+server per matrix point".into());
     rep.assumptions.push("UDP loss tolerance: a request is retransmitted up to 5 times over 21.5 s before its reply counts as missing".into());
 
+    if sums.unconfirmed > 0 {
+        rep.caps_hit.push(format!("{} scenario(s) hit a deadline after the {iso_cap} confirmation runs (alone, full deadline) were used up; they carry no verdict", sums.unconfirmed));
+        if rep.violations.is_empty() && rep.machinery_error.is_none() {
+            rep.machinery_error = Some(format!("{} scenario(s) hit a deadline that could not be re-checked alone (confirmation budget used up by deadline hits that did not reproduce): machine too loaded for a verdict", sums.unconfirmed));
+        }
+    }
     // ---- vacuity guard
     if rep.violations.is_empty() && rep.machinery_error.is_none() {
         let mut why = Vec::new();
